@@ -10,7 +10,8 @@ from props import _notes
 from props.c06 import parse_logged
 
 # junk: lines no recogniser of the section may accept
-JUNK_COMMON = ["", "   ", "garbage", "12345", "0 = ", "= N 0 0", "0 = X 1 2", "  [ExpertSingle]", "  {", "0 = N 0", "0 = E"]
+JUNK_COMMON = ["", "   ", "garbage", "12345", "0 = ", "= N 0 0", "0 = X 1 2", "  [ExpertSingle]", "  {", "0 = N 0", "0 = E",
+               "} ", "}\t", "{ ", "{\t", " }", "}}", "{}", "} {", "[Song]", "[ExpertSingle] "]
 JUNK = {
     "track": JUNK_COMMON + ["0 = N 8 0", "0 = S 64 10", "0 = S 0 10", "0 = E two words", "0 = B 120000", "0 = TS 4",
                             "0 = A 100", '0 = E "section x"', "Resolution = 192", "0 = N -1 0", "0 = N 0 0 0", "0 = n 0 0"],
@@ -54,14 +55,16 @@ def make_section(r, sec, tokens, copy=False):
     return body, ticks
 
 
-def assemble(sec, body):
+def assemble(sec, body, indent="  "):
+    """(indent: how the body lines of the section under test are indented - Moonscraper writes two blanks, but a body line
+    may start in column 0 or after a tab; a bare '{' or '}' line is structural and never used as an unparsable line)"""
     song = section("Song", ["Resolution = 192"])
     if sec == "sync":
-        sync = section("SyncTrack", ["0 = TS 4", "0 = B 120000"] + body)
+        sync = section("SyncTrack", ["0 = TS 4", "0 = B 120000"] + body, indent=indent)
     else:
         sync = section("SyncTrack", ["0 = TS 4", "0 = B 120000"])
-    ev = section("Events", body if sec == "events" else [])
-    tr = section("ExpertSingle", body if sec == "track" else [])
+    ev = section("Events", body if sec == "events" else [], indent=indent)
+    tr = section("ExpertSingle", body if sec == "track" else [], indent=indent)
     return "\n".join(song + sync + ev + tr) + "\n"
 
 
@@ -107,14 +110,17 @@ def sec_digest(sec, chart):
     return observe.digest(o["global"])
 
 
-def record(r, cid, sec, tokens, copy=False, given=None):
+def record(r, cid, sec, tokens, copy=False, given=None, indent="  "):
     body, ticks = given if given is not None else make_section(r, sec, tokens, copy=copy)
-    text = assemble(sec, body)
+    if indent != "  ":
+        # in column 0 a line that IS a brace is structural, and a brace followed by blanks is an ordinary unparsable line
+        body = [("x" + ln if (indent + ln) in ("{", "}") else ln) for ln in body]
+    text = assemble(sec, body, indent)
     clean_body = [ln for ln, tok in zip(body, tokens) if tok != "junk"]
     kind, val, logs = parse_logged(text)
-    ck, cval, _ = parse_logged(assemble(sec, clean_body))
+    ck, cval, _ = parse_logged(assemble(sec, clean_body, indent))
     rec = {"id": cid, "props": ["C14"], "kind": "dispatch", "sec": sec, "lines": list(tokens), "raised": "", "got": [[], [], []],
-           "warn": [], "bogus": 0, "clean": "", "dirty": "", "body": body, "ticks": ticks}
+           "warn": [], "bogus": 0, "clean": "", "dirty": "", "body": body, "ticks": ticks, "indent": indent}
     if kind != "chart" or ck != "chart":
         rec["raised"] = type(val if kind != "chart" else cval).__name__
         return rec, text
@@ -126,15 +132,15 @@ def record(r, cid, sec, tokens, copy=False, given=None):
     # as index 0 (never a valid index); a report naming a CLAIMED line is counted in `bogus`.
     junk_idx = [k for k, tok in enumerate(tokens, start=1) if tok == "junk"]
     reports = [msg for name, level, msg in logs if level >= logging.WARNING and name.startswith("chartparse")]
-    valid_texts = {'"  ' + ln + '"' for ln, tok in zip(body, tokens) if tok != "junk"}
-    junk_texts = {'"  ' + body[k - 1] + '"' for k in junk_idx}
+    valid_texts = {'"' + indent + ln + '"' for ln, tok in zip(body, tokens) if tok != "junk"}
+    junk_texts = {'"' + indent + body[k - 1] + '"' for k in junk_idx}
     j = 0
     bogus = 0
     for msg in reports:
-        if j < len(junk_idx) and ('"  ' + body[junk_idx[j] - 1] + '"') in msg:
+        if j < len(junk_idx) and ('"' + indent + body[junk_idx[j] - 1] + '"') in msg:
             rec["warn"].append(junk_idx[j])
             j += 1
-        elif j > 0 and ('"  ' + body[junk_idx[j - 1] - 1] + '"') in msg:
+        elif j > 0 and ('"' + indent + body[junk_idx[j - 1] - 1] + '"') in msg:
             rec["warn"].append(0)
         elif any(t in msg for t in valid_texts - junk_texts):
             bogus += 1
@@ -186,7 +192,7 @@ def run(ctx):
         for _ in range(r.choice([0, 1, 2])):
             toks.append("junk")
         sec = r.choice(["track", "sync", "events"])
-        rec, text = record(r, f"s{j}", sec, toks, copy=(j % 3 == 0))
+        rec, text = record(r, f"s{j}", sec, toks, copy=(j % 3 == 0), indent=("  " if j % 4 else r.choice(["", "\t", "    ", " "])))
         recs.append(rec)
         texts[rec["id"]] = text
         ctx.evaluations += 1
@@ -223,6 +229,6 @@ def replay(ctx, obj):
     rec = obj["record"]
     r = rng("C14-replay")
     given = (rec["body"], rec["ticks"]) if "body" in rec else None
-    rec2, text = record(r, rec["id"], rec["sec"], rec["lines"], given=given)
+    rec2, text = record(r, rec["id"], rec["sec"], rec["lines"], given=given, indent=rec.get("indent", "  "))
     for rid, p, clause in ctx.validate([rec2]):
         ctx.violation(clause, {"kind": "dispatch", "record": rec2, "text": text})
